@@ -70,6 +70,8 @@ mod serve;
 mod archive;
 #[path = "gen_bidir.rs"]
 mod bidir;
+#[path = "/repo/src/bin/copia/hub.rs"]
+mod hub;
 
 use serve::verif_wrap as sv;
 
@@ -374,8 +376,33 @@ fn bisync_history(case: &Value, base: &Path) -> Value {
     json!({"runs": runs})
 }
 
+/// the real hub_sync (client) against the real serve() loop (this binary re-spawned as `serve <root>`), twice
+fn hub_sync_case(case: &Value, base: &Path) -> Value {
+    let world = base.join("sworld");
+    let _ = std::fs::remove_dir_all(&world);
+    let (local, hubroot) = (world.join("local"), world.join("hub"));
+    std::fs::create_dir_all(&local).unwrap();
+    std::fs::create_dir_all(&hubroot).unwrap();
+    write_tree(&local, &case["local"]);
+    write_tree(&hubroot, &case["hub"]);
+    let mut out = serde_json::Map::new();
+    for round in ["first", "second"] {
+        let before = tree_of(&hubroot);
+        let r = hub::hub_sync(&local, hubroot.to_str().unwrap());
+        let mut after = tree_of(&hubroot);
+        after.retain(|k, _| !k.starts_with(".copia/"));
+        let puts: Vec<String> = after.iter().filter(|(k, v)| before.get(*k) != Some(*v)).map(|(k, _)| k.clone()).collect();
+        out.insert(round.to_string(), json!({"ok": r.is_ok(), "err": r.err().map(|e| e.to_string()), "puts": puts}));
+        if round == "first" {
+            out.insert("hub_after_first".to_string(), json!(after));
+        }
+    }
+    Value::Object(out)
+}
+
 fn run_case(case: &Value, base: &Path) -> Value {
     match case["fn"].as_str().unwrap_or("") {
+        "hub_sync" => hub_sync_case(case, base),
         "bisync_apply" => bisync_apply(case, base),
         "bisync_history" => bisync_history(case, base),
         "frame_read" => frame_read(case),
@@ -386,6 +413,15 @@ fn run_case(case: &Value, base: &Path) -> Value {
 }
 
 fn main() {
+    let args: Vec<String> = std::env::args().collect();
+    if args.len() == 3 && args[1] == "serve" {
+        // the hub end of HubClient::connect(<local path>): the REAL serve loop on this process's stdin/stdout
+        if let Err(e) = serve::serve(Path::new(&args[2])) {
+            eprintln!("serve: {e}");
+            std::process::exit(1);
+        }
+        return;
+    }
     let base = std::env::temp_dir().join(format!("copia-verif-hub-{}", std::process::id()));
     let _ = std::fs::remove_dir_all(&base);
     std::fs::create_dir_all(&base).unwrap();
